@@ -543,7 +543,7 @@ def _find_registered_methods(cls, selector):
       new_selector = selector + '.' + method_info.name
       method_info = method_info._replace(
           module=selector, selector=new_selector, is_method=True)
-      _RENAMED_SELECTORS[old_selector] = new_selector
+      _RENAMED_SELECTORS[old_selector, method] = new_selector
       _REGISTRY.pop(old_selector)
       _REGISTRY[new_selector] = method_info
       _INVERSE_REGISTRY[method] = method_info
@@ -1600,7 +1600,9 @@ def _make_gin_wrapper(fn, fn_or_cls, name, selector, allowlist, denylist):
   @functools.wraps(fn)
   def gin_wrapper(*args, **kwargs):
     """Supplies fn with parameter values from the configuration."""
-    current_selector = _RENAMED_SELECTORS.get(selector, selector)
+    # (Keyed by the function as well: a function registered later under the
+    # name a method used to have is not that method.)
+    current_selector = _RENAMED_SELECTORS.get((selector, fn_or_cls), selector)
     new_kwargs = _get_bindings(current_selector)
     gin_bound_args = list(new_kwargs.keys())
     scope_str = '/'.join(current_scope())
